@@ -102,23 +102,27 @@ type ReturnSite struct {
 }
 
 type Frame struct {
-	an       *Analysis
-	fn       *ssa.Function
-	parent   *Frame
-	depth    int
-	key      string
-	vals     map[ssa.Value]AV
-	objs     map[*ssa.Alloc]*Obj
-	storeN   map[*ssa.Alloc]map[string]int
-	escaped  map[*ssa.Alloc]bool
-	edge     map[[2]int]DNF
-	blockIn  map[int]DNF
-	returns  []ReturnSite
-	cur      DNF
-	curBlk   *ssa.BasicBlock
-	curInstr ssa.Instruction
-	phiInv   map[*ssa.Phi]Conj
-	final    bool
+	an      *Analysis
+	fn      *ssa.Function
+	parent  *Frame
+	depth   int
+	key     string
+	vals    map[ssa.Value]AV
+	objs    map[*ssa.Alloc]*Obj
+	storeN  map[*ssa.Alloc]map[string]int
+	escaped map[*ssa.Alloc]bool
+	// sharedAlloc: allocs whose address is handed to an inlined callee (prescan)
+	sharedAlloc map[*ssa.Alloc]bool
+	// copy-loop idioms of this function and whether the summary write was emitted this pass
+	copyStores map[*ssa.Store]*copyLoop
+	edge       map[[2]int]DNF
+	blockIn    map[int]DNF
+	returns    []ReturnSite
+	cur        DNF
+	curBlk     *ssa.BasicBlock
+	curInstr   ssa.Instruction
+	phiInv     map[*ssa.Phi]Conj
+	final      bool
 	// states at instructions of interest
 	stateAt map[ssa.Instruction]DNF
 	child   map[ssa.CallInstruction]*Frame
@@ -179,6 +183,7 @@ func (an *Analysis) newFrame(fn *ssa.Function, parent *Frame, args []AV) *Frame 
 		f.vals[fv] = an.u.symbolic(f.key+"free:"+fv.Name(), fv.Type())
 	}
 	f.prescan()
+	f.copyStores = findCopyLoops(fn)
 	return f
 }
 
@@ -216,6 +221,18 @@ func (f *Frame) prescan() {
 				}
 			case *ssa.UnOp, *ssa.Slice, *ssa.DebugRef:
 			case *ssa.Return, *ssa.MakeInterface:
+			case *ssa.Call:
+				// handing the address to a function of the module that will be evaluated inline (its
+				// stores are then seen in this analysis) and that keeps the pointer to itself is not
+				// an escape
+				if !f.passedToInlined(x, v, 0) {
+					f.escaped[a] = true
+				} else {
+					if f.sharedAlloc == nil {
+						f.sharedAlloc = map[*ssa.Alloc]bool{}
+					}
+					f.sharedAlloc[a] = true
+				}
 			default:
 				f.escaped[a] = true
 			}
@@ -1238,7 +1255,7 @@ func phiComment(ph *ssa.Phi) string {
 
 func (f *Frame) alloc(x *ssa.Alloc) {
 	et := deref(x.Type())
-	o := &Obj{key: f.key + x.Name(), alloc: x, typ: et, stores: map[string][]storeRec{}, escaped: f.escaped[x]}
+	o := &Obj{key: f.key + x.Name(), alloc: x, typ: et, stores: map[string][]storeRec{}, escaped: f.escaped[x], shared: f.sharedAlloc[x]}
 	if x.Comment != "" {
 		o.key = f.key + x.Name() + "(" + x.Comment + ")"
 	}
@@ -1396,6 +1413,9 @@ func (f *Frame) store(x *ssa.Store) {
 		return
 	}
 	v := f.val(x.Val)
+	if cl := f.copyStores[x]; cl != nil && f.emitCopyLoop(cl) {
+		return // the element store of a summarised copy loop (idiom.go)
+	}
 	if p.slice != nil && p.idx != nil {
 		if _, isStruct := p.slice.elem.Underlying().(*types.Struct); isStruct || p.path != "" {
 			p.slice.root.elemWritten = true
@@ -1404,7 +1424,7 @@ func (f *Frame) store(x *ssa.Store) {
 			}
 		}
 		w := &Write{off: p.slice.off.add(p.idx.a), width: affConst(1), kind: wByte, val: v, pos: f.posStr(x.Pos()), state: f.cur, fn: f.fn}
-		p.slice.root.writes = append(p.slice.root.writes, w)
+		p.slice.root.addWrite(w)
 		return
 	}
 	if p.obj == nil {
@@ -1517,6 +1537,9 @@ func (f *Frame) loadPath(o *Obj, path string, t types.Type, at ssa.Instruction) 
 			}
 		}
 		return f.an.u.symbolic(f.key+"esc:"+o.key+path, t)
+	}
+	if o.shared {
+		return f.loadShared(o, path, t, at)
 	}
 	// exact path
 	if recs := o.stores[path]; len(recs) > 0 {
@@ -1695,7 +1718,10 @@ func (f *Frame) hasPrefixStores(o *Obj, path string) bool {
 // dominatesRec: the single recorded store governs a load at `at`: in the same function by
 // dominance; across inlined frames by the structural executed-before relation.
 func (f *Frame) dominatesRec(o *Obj, rc storeRec, at ssa.Instruction) bool {
-	if at == nil || rc.instr == nil || rc.instr.Parent() == at.Parent() {
+	if rc.instr == nil {
+		return true // the value the object was created with
+	}
+	if at == nil || rc.instr.Parent() == at.Parent() {
 		return f.dominates(rc.instr, at)
 	}
 	return f.executedBefore(o, rc, at)
@@ -2412,4 +2438,109 @@ func (c *Ctx) fieldImmutable(T types.Type, k int) bool {
 	}
 	c.immutable[key] = res
 	return res
+}
+
+// passedToInlined: every use of v as an argument of call x goes to a parameter the callee keeps
+// contained, and the callee will be inlined at this depth.
+func (f *Frame) passedToInlined(x *ssa.Call, v ssa.Value, extra int) bool {
+	cm := x.Common()
+	callee := cm.StaticCallee()
+	if callee == nil || cm.IsInvoke() || callee.Blocks == nil || !f.an.ctx.inModule(callee) || f.depth+extra+1 >= maxDepth || f.recursive(callee) {
+		return false
+	}
+	if f.an.noInline != nil && f.an.noInline(callee) {
+		return false
+	}
+	if _, un := f.an.uninterp[callee]; un {
+		return false
+	}
+	used := false
+	for i, a := range cm.Args {
+		if a != v {
+			continue
+		}
+		used = true
+		if i >= len(callee.Params) || !f.paramContained(callee.Params[i], extra+1, map[ssa.Value]bool{}) {
+			return false
+		}
+	}
+	return used
+}
+
+// paramContained: the pointer value v (a parameter or an address derived from it) is only used
+// to load from, store to, derive field/element addresses, be returned, or be handed to further
+// inlined functions of the module under the same condition.
+func (f *Frame) paramContained(v ssa.Value, extra int, seen map[ssa.Value]bool) bool {
+	if seen[v] {
+		return true
+	}
+	seen[v] = true
+	refs := v.Referrers()
+	if refs == nil {
+		return true
+	}
+	for _, r := range *refs {
+		switch x := r.(type) {
+		case *ssa.FieldAddr:
+			if !f.paramContained(x, extra, seen) {
+				return false
+			}
+		case *ssa.IndexAddr:
+			if x.X == v && !f.paramContained(x, extra, seen) {
+				return false
+			}
+		case *ssa.UnOp, *ssa.DebugRef, *ssa.Return, *ssa.Slice:
+		case *ssa.Store:
+			if x.Addr != v {
+				return false
+			}
+		case *ssa.Call:
+			if !f.passedToInlined(x, v, extra) {
+				return false
+			}
+		default:
+			return false
+		}
+	}
+	return true
+}
+
+// loadShared: load from a local object that inlined callees may have stored through. Only the
+// recorded stores (of all frames, in evaluation order) decide: the ordered-store resolution, or
+// the zero value when nothing related has been stored so far, field by field for structs.
+func (f *Frame) loadShared(o *Obj, path string, t types.Type, at ssa.Instruction) AV {
+	related := false
+	for q, recs := range o.stores {
+		if len(recs) > 0 && (q == path || q == "" || strings.HasPrefix(path, q+".") || strings.HasPrefix(q, path+".")) {
+			related = true
+		}
+	}
+	if !related {
+		if arr, ok := t.Underlying().(*types.Array); ok {
+			if rt := o.arrFields[path]; rt != nil {
+				return ASlice{root: rt, off: Aff{}, ln: affConst(arr.Len()), elem: arr.Elem()}
+			}
+		}
+		return zeroValue(t)
+	}
+	if v, ok := f.orderedLoad(o, path, at); ok {
+		return v
+	}
+	if st, ok := t.Underlying().(*types.Struct); ok {
+		// stores below the loaded path: assemble field by field
+		sub := false
+		for q, recs := range o.stores {
+			if len(recs) > 0 && strings.HasPrefix(q, path+".") {
+				sub = true
+			}
+		}
+		if sub {
+			fs := make([]AV, st.NumFields())
+			for i := range fs {
+				fs[i] = f.loadShared(o, pathStr(path, i), st.Field(i).Type(), at)
+			}
+			return AStructLit{typ: t, fields: fs}
+		}
+	}
+	return f.an.u.symbolic(f.key+fmt.Sprintf("multi:%s%s@%s", o.key, path, valueName(at)), t)
 }
